@@ -2,9 +2,11 @@ package dsim
 
 import (
 	"errors"
+	"fmt"
 	"io"
 	"net"
 	"os"
+	"strings"
 	"sync"
 	"time"
 )
@@ -52,26 +54,26 @@ type SimConn struct {
 	Name string
 	mu   sync.Mutex
 
-	rbuf      []byte
-	rerr      error // returned once rbuf is drained
-	errWithData bool // the last bytes and rerr are returned by the same Read call
-	ErrSeen   bool  // a Read has returned rerr (the reader consumed the end condition)
-	rwait     chan struct{}
-	MaxRead   int // cap per Read, 0 = none
-	inRead    bool
-	Reads     int
-	ReadBytes int
+	rbuf        []byte
+	rerr        error // returned once rbuf is drained
+	errWithData bool  // the last bytes and rerr are returned by the same Read call
+	ErrSeen     bool  // a Read has returned rerr (the reader consumed the end condition)
+	rwait       chan struct{}
+	MaxRead     int // cap per Read, 0 = none
+	inRead      bool
+	Reads       int
+	ReadBytes   int
 
 	closed     bool
 	CloseCount int
 	CloseAt    time.Duration
 	CloseSeq   uint64
 
-	wlog    []byte
-	Writes  []WriteRec
-	wfault  *WriteFault
-	stalled bool
-	resume  chan struct{}
+	wlog      []byte
+	Writes    []WriteRec
+	wfault    *WriteFault
+	stalled   bool
+	resume    chan struct{}
 	wconsumed int // bytes of wlog the scripted peer has consumed
 
 	laddr, raddr net.Addr
@@ -409,9 +411,9 @@ func (c *SimConn) ClosedAt() (bool, time.Duration) {
 	return c.closed, c.CloseAt
 }
 
-func (c *SimConn) LocalAddr() net.Addr                { return c.laddr }
-func (c *SimConn) RemoteAddr() net.Addr               { return c.raddr }
-func (c *SimConn) SetDeadline(t time.Time) error      { return nil }
+func (c *SimConn) LocalAddr() net.Addr           { return c.laddr }
+func (c *SimConn) RemoteAddr() net.Addr          { return c.raddr }
+func (c *SimConn) SetDeadline(t time.Time) error { return nil }
 func (c *SimConn) SetReadDeadline(t time.Time) error {
 	c.mu.Lock()
 	c.rdeadline = t
@@ -528,15 +530,15 @@ func (l *SimListener) Addr() net.Addr { return l.addr }
 
 // SimReader is an io.Reader that returns a byte string in planned fragments.
 type SimReader struct {
-	data   []byte
-	pos    int
-	frags  []int // sizes of successive read results (0 = a (0,nil) read); then whatever is asked
-	fi     int
-	endErr error // error at end of data (io.EOF for a clean end)
-	eofWithData bool // deliver the final bytes together with endErr
-	Calls  int
-	CallsAfter int // Read calls made after `mark` bytes had been consumed
-	mark   int
+	data        []byte
+	pos         int
+	frags       []int // sizes of successive read results (0 = a (0,nil) read); then whatever is asked
+	fi          int
+	endErr      error // error at end of data (io.EOF for a clean end)
+	eofWithData bool  // deliver the final bytes together with endErr
+	Calls       int
+	CallsAfter  int // Read calls made after `mark` bytes had been consumed
+	mark        int
 }
 
 func (r *SimReader) Read(p []byte) (int, error) {
@@ -578,6 +580,75 @@ var _ io.Reader = (*SimReader)(nil)
 // ---------------------------------------------------------------- addresses
 
 var simAddrs = []struct{ ip string }{{"10.1.2.3"}, {"127.0.0.1"}, {"2001:db8::1"}, {"::1"}, {"192.168.77.5"}}
+
+// multiAddr is a multi-homed endpoint; it prints the way an SCTP address does
+// ("10.0.0.1/10.0.0.2:3868", "[2001:db8::1]/[2001:db8::2]:3868").
+type multiAddr struct {
+	ips  []net.IP
+	port int
+}
+
+func (a *multiAddr) Network() string { return "sctp" }
+func (a *multiAddr) String() string {
+	var sb strings.Builder
+	for i, ip := range a.ips {
+		if i > 0 {
+			sb.WriteByte('/')
+		}
+		if ip.To4() != nil {
+			sb.WriteString(ip.String())
+		} else {
+			sb.WriteString("[" + ip.String() + "]")
+		}
+	}
+	fmt.Fprintf(&sb, ":%d", a.port)
+	return sb.String()
+}
+
+var simMultiAddrs = [][]string{
+	{"10.1.2.3", "10.1.2.4"},
+	{"2001:db8::1", "2001:db8::2"},
+	{"10.9.9.9", "2001:db8::9"},
+	{"2001:db8::7", "::1"},
+	{"2001:db8::a", "2001:db8::b", "192.168.5.5"},
+}
+
+// drawLocalAddr draws a local endpoint: usually one address, sometimes a multi-homed one.
+func drawLocalAddr(t *Tape, port int) net.Addr {
+	if t.Chance(1, 5) {
+		a := &multiAddr{port: port}
+		for _, s := range simMultiAddrs[t.Draw(len(simMultiAddrs))] {
+			a.ips = append(a.ips, net.ParseIP(s))
+		}
+		return a
+	}
+	return drawAddr(t, port)
+}
+
+// endpointIPs lists the addresses of an endpoint, in canonical text form.
+func endpointIPs(a net.Addr) []string {
+	switch x := a.(type) {
+	case *net.TCPAddr:
+		return []string{x.IP.String()}
+	case *multiAddr:
+		var out []string
+		for _, ip := range x.ips {
+			out = append(out, ip.String())
+		}
+		return out
+	}
+	return nil
+}
+
+// sharesAddr reports whether got contains an address of the endpoint.
+func sharesAddr(got []string, a net.Addr) bool {
+	for _, ip := range endpointIPs(a) {
+		if containsStr(got, ip) {
+			return true
+		}
+	}
+	return false
+}
 
 func drawAddr(t *Tape, port int) *net.TCPAddr {
 	i := t.Draw(len(simAddrs))
